@@ -83,7 +83,18 @@ func readOnlyUse(v ssa.Value, seen map[ssa.Value]bool) (bool, ssa.Instruction, s
 			}
 		case *ssa.Store:
 			if x.Addr == v {
+				if al, ok := v.(*ssa.Alloc); ok && !al.Heap {
+					continue // a local copy is assigned: not shared state
+				}
 				return false, x, "is assigned"
+			}
+			// a copy into a local that does not escape (a value receiver or parameter spilled to the stack): the copy is
+			// judged like the original
+			if al, ok := x.Addr.(*ssa.Alloc); ok && !al.Heap && x.Val == v {
+				if ok, in, why := readOnlyUse(al, seen); !ok {
+					return false, in, why
+				}
+				continue
 			}
 			return false, x, "is stored into another object (the reference escapes)"
 		case *ssa.FieldAddr:
